@@ -41,7 +41,7 @@ fn subsets(max: usize) -> Vec<Vec<Rewrite>> {
 impl C13 {
     pub fn new() -> C13 {
         C13 {
-            quick: Pool::new(293),
+            quick: Pool::new(347),
             thorough: Pool::new(41),
             subsets_q: subsets(2),
             subsets_t: subsets(3),
@@ -85,7 +85,7 @@ impl Property for C13 {
         self.pool(tier).count() + extra_programs().len() as u64
     }
     fn chunk(&self, _tier: Tier) -> u64 {
-        40
+        8
     }
     fn run_case(&self, tier: Tier, case: u64, acc: &mut Acc) {
         acc.count("cases", 1);
@@ -169,7 +169,7 @@ impl Property for C13 {
     }
     fn info(&self, tier: Tier) -> Info {
         Info {
-            rule: "program pool (every 293rd / 41st member of the quick S family, clean and with one injected violation of each of the 14 classes) x every compatible subset of <= 2 / <= 3 of 13 rewrite kinds (extra spaces, tabs, commas removed, commas doubled, trailing comments, blank lines, upper-case mnemonics, xN register names, hex / binary immediates, label on the instruction's line, omitted zero offsets, pseudo-instructions replaced by their expansion), each applied at all sites: the multiset of (error code, statement index, operand role) must equal that of the plain rendering. Non-trivial = programs that draw at least one diagnostic".into(),
+            rule: "program pool (every 347th / 41st member of the quick S family, clean and with one injected violation of each of the 14 classes) x every compatible subset of <= 2 / <= 3 of 13 rewrite kinds (extra spaces, tabs, commas removed, commas doubled, trailing comments, blank lines, upper-case mnemonics, xN register names, hex / binary immediates, label on the instruction's line, omitted zero offsets, pseudo-instructions replaced by their expansion), each applied at all sites: the multiset of (error code, statement index, operand role) must equal that of the plain rendering. Non-trivial = programs that draw at least one diagnostic".into(),
             bounds: json!({"programs": self.pool(tier).count(), "rewrite_subsets": self.subsets(tier).len()}),
             assumptions: vec!["operand roles are compared semantically (rd / rs1 / rs2 / imm / label / whole), so a pseudo-instruction and its expansion are comparable".into()],
             states_counter: "programs",
